@@ -219,9 +219,15 @@ public:
   // Compare the attributes of this map with another KeyValueIterable
   bool EqualTo(const opentelemetry::common::KeyValueIterable &attributes) const noexcept
   {
-    if (attributes.size() != this->size())
+    if (attributes.size() < this->size())
     {
       return false;
+    }
+    if (attributes.size() > this->size())
+    {
+      // Either the attributes differ, or `attributes` names a key more than once. A map built from
+      // such a list keeps the last value of the key (see SetAttribute), so compare with that map.
+      return GetAttributes() == AttributeMap(attributes).GetAttributes();
     }
 
     const bool is_equal = attributes.ForEachKeyValue(
